@@ -24,7 +24,8 @@ GEN = True
 THEOREMS = ["luba_consts", "sci_consts", "luba_refines_from", "luba_refines", "sci_refines",
             "luba_chunking_independent", "sci_chunking_independent", "luba_chunked_refines", "sci_chunked_refines",
             "luba_no_internal_error", "luba_step_no_internal", "sci_never_raises",
-            "luba_always_resyncs", "sci_always_resyncs"]
+            "luba_always_resyncs", "sci_always_resyncs",
+            "luba_resync_bound", "luba_resync_delivers", "luba_resync_bound_any_history"]
 TRUSTED = ["hand-written model Model/SerialRx.lean of LubaProtocol/SCIRS232Protocol._process_byte, data_received and "
            "the handlers (tied by this correspondence: grammar-guided and random streams x random chunkings, every "
            "length byte 0..255 and every SCI status byte exhaustively)",
@@ -38,7 +39,10 @@ ASSUMPTIONS = ["bytes are 0..255 (elements of a `bytes` object)",
                "dev_inst_map is None/empty while deframing (event decoding context belongs to C20)"]
 PARTIAL = ("always_resyncs is proved in the form 'from every frame boundary the reference deframing restarts' "
            "(luba_always_resyncs, sci_always_resyncs) together with luba_refines_from for mid-frame states; the explicit "
-           "bound 'a boundary is reached within 24 bytes' is exercised by the resync suite but not stated as a theorem; "
+           "bound is proved for LUBA in the strongest true form (luba_resync_bound: from every state, MAX_LEN-1 = 23 bytes "
+           "other than 'Y' that raise no handler exception reach a frame boundary, and a following well-formed frame is "
+           "delivered, luba_resync_delivers; tight, and false for arbitrary bytes since a 'Y' among them opens a frame "
+           "that swallows what follows - both witnessed by examples); SCI has no synchronisation mark, so it has no such bound; "
            "rx_idle bookkeeping (the state machine assigns _rx_state directly, so rx_idle is never cleared) and the "
            "asyncio queues' waiters are outside the model; the decoded Command objects are compared by class name and "
            "frame only")
@@ -48,7 +52,9 @@ LEVEL_TEXT = ("Lean 4 theorems for byte streams of any length: the byte-wise fol
               "progress), for every chunking (…_chunked_refines, …_chunking_independent); no stream, well-formed or not, "
               "makes the state machine raise an internal error (…_no_internal_error; the SCI receiver never raises at "
               "all); from every state with a frame in progress the continuation is deframed like the reference, and everything sent "
-              "from a boundary is delivered (luba_refines_from, luba_always_resyncs, sci_always_resyncs).")
+              "from a boundary is delivered (luba_refines_from, luba_always_resyncs, sci_always_resyncs); from every LUBA state "
+              "a frame boundary is reached within MAX_LEN-1 = 23 bytes other than 'Y' and the next well-formed frame is "
+              "delivered (luba_resync_bound, luba_resync_delivers, luba_resync_bound_any_history).")
 LEVEL_NOTE = ("Trusted: Lean kernel; the hand-written receiver model corresponds to dali/driver/serial.py as far as the "
               "correspondence suite exercises it (sampled streams; exhaustive at the length position and over SCI status "
               "bytes); the reference deframer is my reading of the vendor framing, max payload pinned; decode oracle probed.")
